@@ -216,15 +216,59 @@ def w_misc(arg):
     return acc.res()
 
 
+def specials(row):
+    """(status, sign, raw) settings of one field that sit on its structural corners."""
+    top = (1 << row.nbits) - 1
+    msb = 1 << (row.nbits - 1)
+    st_on = 1 if row.status is not None else 1
+    out = [(0, 0, 0), (st_on, 0, 0), (st_on, 0, top), (st_on, 0, msb), (st_on, 0, 1), (0, 0, top)]
+    if row.sign is not None:
+        out += [(st_on, 1, 0), (st_on, 1, top), (st_on, 1, msb), (0, 1, 0)]
+    if row.status is None:
+        out = [x for x in out if x[0] == 1]
+    return list(dict.fromkeys(out))
+
+
+def w_pairs(reg):
+    """joint conditions: for every ordered pair of fields (A judged, B other) of one register, every combination of
+    their corner settings (zero, one, all ones, top bit only; status on / off; sign on / off), the remaining fields all
+    zero or all ones: A's answer must be what A's own bits say."""
+    acc = Acc()
+    rows = [r for r in CF.ROWS if r.reg == reg and not r.name.startswith("alt40")]
+    k = 0
+    for a in rows:
+        amask = 0
+        for b_ in a.bits():
+            amask |= 1 << (56 - b_)
+        for b in rows:
+            if b is a or (a.bits() & b.bits()):
+                continue
+            bmask = 0
+            for b_ in b.bits():
+                bmask |= 1 << (56 - b_)
+            for sa in specials(a):
+                for sb in specials(b):
+                    for fill in (0, ONES):
+                        k += 1
+                        mb = a.place(*sa) | b.place(*sb) | (fill & ~amask & ~bmask & ONES)
+                        msg = vary_case(carrier(mb, k), k // 2)
+                        acc.n += 1
+                        s = judge_row(a.name, sa[0], sa[1], sa[2], msg)
+                        if s:
+                            acc.bad(s + ":joint_with_%s" % b.name, {"kind": "row", "name": a.name, "f": list(sa), "msg": msg})
+            acc.out.add(("pair", a.name, b.name))
+    return acc.res()
+
+
 def w_any(t):
-    return {"r": w_row, "m": w_misc}[t[0]](t[1])
+    return {"r": w_row, "m": w_misc, "p": w_pairs}[t[0]](t[1])
 
 
 def run(ctx):
     import random
     rng = random.Random(ctx.seed)
     bgs = [0, ONES, 0x55555555555555, 0xAAAAAAAAAAAAAA, rng.getrandbits(56)]
-    tasks = [("m", ctx.seed)]
+    tasks = [("m", ctx.seed)] + [("p", reg) for reg in sorted({r.reg for r in CF.ROWS})]
     for row in CF.ROWS:
         allraw = list(range(1 << row.nbits))
         sub = sorted(set([0, 1, 2, allraw[-1], allraw[-2], len(allraw) // 2, len(allraw) // 2 - 1] + allraw[::max(1, len(allraw) // 9)]))
@@ -242,7 +286,8 @@ def run(ctx):
 def replay(case):
     if case["kind"] == "row":
         s = judge_row(case["name"], *case["f"], case["msg"], case.get("pipeline", False))
-        return [(s, case), (s + ":bg1", case), (s + ":after_df_icao_infer", case)] if s else []
+        return ([(s, case), (s + ":bg1", case), (s + ":after_df_icao_infer", case)] +
+                [(s + ":joint_with_%s" % r_.name, case) for r_ in CF.ROWS]) if s else []
     if case["sub"] == "vector" and len(case["p"]) == 3:
         s = judge_misc("vector", tuple(case["p"]))
         return [(s, case)] if s else [(x, c) for x, c in w_misc(0)["viols"] if x.startswith("oracle")]
